@@ -382,6 +382,10 @@ func init() {
 		return nil
 	}
 
+	externals["(*internal/godebug.Setting).Value"] = func(p *Path, fr *Frame, fn *ssa.Function, a []Value) Value { return Str{} }
+	externals["(*internal/godebug.Setting).IncNonDefault"] = func(p *Path, fr *Frame, fn *ssa.Function, a []Value) Value { return nil }
+	externals["(*internal/godebug.Setting).Name"] = func(p *Path, fr *Frame, fn *ssa.Function, a []Value) Value { return Str{} }
+
 	// ---- os / runtime / misc ----
 	externals["os.Getenv"] = func(p *Path, fr *Frame, fn *ssa.Function, a []Value) Value { return Str{} }
 	externals["os.LookupEnv"] = func(p *Path, fr *Frame, fn *ssa.Function, a []Value) Value {
